@@ -280,7 +280,7 @@ seed("C14.R4.limit-not-plumbed", "C14", "C14.R4:", "policy built with a fixed li
 # ---------------------------------------------------------------- C15
 seed("C15.R1.remove-subtracts-value-length", "C15", "C15.R1:remove:remove:measure", "policy remove subtracts the value length, set adds Record::len()",
      (POLICY, "            self.decr_mem_usage(key_value.1.len() as u64);", "            self.decr_mem_usage(key_value.1.value.len() as u64);"))
-seed("C15.R1.sweep-subtracts-value-length", "C15", "C15.R1:incr_mem_usage:remove_if:measure", "sweep subtracts the value length only",
+seed("C15.R1.sweep-subtracts-value-length", "C15", "C15.R1:sweep:remove_if:measure", "sweep subtracts the value length only",
      (POLICY, "                    let len = val.1.len();", "                    let len = val.1.value.len();"))
 seed("C14.R1.set-accounts-value-length", "C14", "C14.R1:set:accounts-record-size", "policy set accounts the value length, not Record::len()",
      (POLICY, "        let len = record.len() as u64;\n        self.incr_mem_usage(len);", "        let len = record.value.len() as u64;\n        self.incr_mem_usage(len);"))
@@ -288,7 +288,7 @@ seed("C15.R1.delete-unaccounted", "C15", "C15.R1:delete:delete", "policy delete 
      (POLICY, "        if let Ok(record) = &result {\n            self.decr_mem_usage(record.len() as u64);\n        }\n", ""))
 seed("C15.R1.remove-subtracts-zero", "C15", "C15.R1:remove:remove", "policy remove subtracts 0",
      (POLICY, "            self.decr_mem_usage(key_value.1.len() as u64);", "            let _ = key_value;\n            self.decr_mem_usage(0);"))
-seed("C15.R1.sweep-unaccounted", "C15", "C15.R1:incr_mem_usage:remove_if", "sweep does not subtract evicted records",
+seed("C15.R1.sweep-unaccounted", "C15", "C15.R1:sweep:remove_if", "sweep does not subtract evicted records",
      (POLICY, "                    usage = self.decr_mem_usage(len as u64);", "                    usage = usage.saturating_sub(len as u64);"))
 # ---------------------------------------------------------------- C17
 seed("C17.R1.permit-not-forgotten", "C17", "C17.R", "permit dropped at once instead of kept",
